@@ -38,6 +38,7 @@ FORMS = {
     "case": "[String->upper(String->upper(s)) == String->upper(s), "
             "String->lower(String->lower(s)) == String->lower(s), "
             "String->upper(s), String->lower(s)]",
+    "lower1": "String->lower(s)", "upper1": "String->upper(s)",
     "trim": "[trim(trim(s)) == trim(s), trim(s)]",
     "lines": "[lines(s), unlines(lines(s))]",
     "words": "[words(s), unwords(words(s))]",
@@ -127,6 +128,40 @@ def check_replace(agg, s, a, b):
         return
     expect(agg, "replace", {"s": s, "t": a, "u": b}, s.replace(a, b),
            "replace-all-left-to-right")
+
+
+def case_characters():
+    """every letter of the Latin-1, Latin Extended-A/B, Greek and Cyrillic
+    blocks plus the special-casing characters"""
+    cps = list(range(0xA0, 0x250)) + list(range(0x370, 0x400)) + \
+        list(range(0x400, 0x460)) + [0x17F, 0x1E9E, 0xFB01, 0xFB00, 0x2126,
+                                     0x212A, 0x10400, 0x10428]
+    return [chr(c) for c in cps if chr(c).isalpha()]
+
+
+def explore_case(chunk):
+    """case mapping of single characters: a lowercase letter is a fixed
+    point of lower, an uppercase letter of upper, and where the character
+    has a one-to-one partner in the other case that partner is the result"""
+    import unicodedata
+    agg = core.Agg()
+    for c in chunk["chars"]:
+        cat = unicodedata.category(c)
+        if cat == "Ll":
+            expect(agg, "lower1", {"s": c}, c, "lowercase-letter-fixed")
+        if cat == "Lu":
+            expect(agg, "upper1", {"s": c}, c, "uppercase-letter-fixed")
+        lo, up = c.lower(), c.upper()
+        if len(lo) == 1 and lo != c and lo.upper() == c:
+            expect(agg, "lower1", {"s": c}, lo, "one-to-one-partner")
+            expect(agg, "lower1", {"s": "x" + c + "y"}, "x" + lo + "y",
+                   "one-to-one-partner")
+        if len(up) == 1 and up != c and up.lower() == c:
+            expect(agg, "upper1", {"s": c}, up, "one-to-one-partner")
+            expect(agg, "upper1", {"s": "x" + c + "y"}, "X" + up + "Y",
+                   "one-to-one-partner")
+        agg.count("cases")
+    return agg
 
 
 def explore_pairs(chunk):
@@ -402,6 +437,8 @@ def main(tier, seed):
         rjobs.append({"rows": [], "parts": [], "seps": seps,
                       "lists": lists})
     agg.merge(core.pmap(explore_replace, rjobs))
+    agg.merge(core.pmap(explore_case, [
+        {"chars": c} for c in core.chunked(case_characters(), core.NPROC)]))
     # chr/ord on boundary code points
     for n in (0, 9, 10, 39, 127, 128, 255, 256, 0xD7FF, 0xE000, 0xFFFF,
               0x10000, 0x10FFFF):
